@@ -87,6 +87,13 @@ pub fn gen_include_tree(r: &mut Rng) -> (Tree, String) {
             files.push((format!("{}/{}", d1, f), c));
         }
     }
+    // a `halt` inside an included file ends the whole run, not only that file
+    for (_, content) in files.iter_mut() {
+        if r.chance(1, 10) {
+            content.push_str("halt\n\n");
+            content.push_str(&stmt(&mut id));
+        }
+    }
     // root
     let mut c = String::from("# root\n");
     c.push_str(&stmt(&mut id));
@@ -216,7 +223,7 @@ pub fn gen_update_case(r: &mut Rng, small: bool) -> UpdateCase {
                         representable = false;
                     }
                 }
-                CmdAns::SpawnErr => representable = false,
+                CmdAns::SpawnErr | CmdAns::Signal { .. } => representable = false,
             }
         }
     }
